@@ -161,11 +161,69 @@ def set_base_pair(var, cc, ss, den=1):
     _book()[var.id] = (den, cc, ss)
 
 
+def _find_indicator(node):
+    """first ite(c, const, const) / ite(c, a, b) node inside a real term (depth-first), or None"""
+    for n in ir.topo([node]):
+        if n.op == 'ite' and n.sort == 'R':
+            return n
+    return None
+
+
+def _assume_cond(node, cond, value):
+    """node with the boolean `cond` fixed to `value`: every real if-then-else on cond (or its negation) collapses"""
+    memo = {}
+    for n in ir.topo([node]):
+        if not n.args:
+            memo[n.id] = n
+            continue
+        if n.op == 'ite' and n.sort == 'R':
+            c = n.args[0]
+            if c is cond:
+                memo[n.id] = memo[(n.args[1] if value else n.args[2]).id]
+                continue
+            if c.op == 'not' and c.args[0] is cond:
+                memo[n.id] = memo[(n.args[2] if value else n.args[1]).id]
+                continue
+        a = [memo.get(x.id, x) for x in n.args]
+        if n.sort != 'R':
+            memo[n.id] = n if all(x is y for x, y in zip(a, n.args)) else ir._mk(n.op, a, n.sort, n.val)
+            continue
+        if all(x is y for x, y in zip(a, n.args)):
+            memo[n.id] = n
+        elif n.op == 'add':
+            memo[n.id] = ir.radd(*a)
+        elif n.op == 'sub':
+            memo[n.id] = ir.rsub(*a)
+        elif n.op == 'mul':
+            memo[n.id] = ir.rmul(*a)
+        elif n.op == 'neg':
+            memo[n.id] = ir.rneg(*a)
+        elif n.op == 'div':
+            memo[n.id] = ir.rdiv(*a)
+        elif n.op == 'ite':
+            memo[n.id] = ir.rite(*a)
+        else:
+            memo[n.id] = ir._mk(n.op, a, n.sort, n.val)
+    return memo[node.id]
+
+
 def cos_sin(x):
-    """x: real SC -> (cos, sin) as R terms"""
+    """x: real SC -> (cos, sin) as R terms.  Angles that are piecewise (if-then-else of linear forms, e.g. a*[c] + (2pi-a)*[not c])
+    are expanded case by case."""
     if not x.isreal:
         raise S.EngineError('cos/sin of complex')
-    lin, const = linear_form(x.re)
+    try:
+        lin, const = linear_form(x.re)
+    except S.EngineError:
+        ind = _find_indicator(x.re)
+        if ind is None:
+            raise
+        c = ind.args[0]
+        if c.op == 'not':
+            c = c.args[0]
+        ct, st = cos_sin(S.SC(_assume_cond(x.re, c, True)))
+        cf, sf = cos_sin(S.SC(_assume_cond(x.re, c, False)))
+        return ir.rite(c, ct, cf), ir.rite(c, st, sf)
     m = pi_multiple(const)
     if m is None:
         raise S.EngineError(f'constant angle {float(const)} is not a recognised multiple of pi')
@@ -269,6 +327,9 @@ def apply(name, x):
             c.aux.append((h, 'tanh', t))
             return S.SC(h)
         return _memo('tanh', t.id, mk)
+    if name == 'arccos' and t.op == 'const' and t.val in (1, 0, -1):
+        import math as _m
+        return S.SC(ir.ZERO) if t.val == 1 else S.as_sc(_m.pi if t.val == -1 else _m.pi / 2)
     if name == 'arccos':
         # angle a in [0, pi] with cos a = t, sin a = +sqrt(1 - t^2)
         def mk():
@@ -276,6 +337,11 @@ def apply(name, x):
             s = S.SC(ir.rsub(ir.ONE, ir.rmul(t, t))).sqrt()
             set_base_pair(a, t, s.re)
             c.aux.append((a, 'arccos', t))
+            # range facts (a is the principal value): 0 <= a <= pi, and the end points are attained only at t = +-1
+            import math as _m
+            pi_ = ir.rconst(S.lift_float(_m.pi))
+            c.facts += [ir.rcmp('le', ir.ZERO, a), ir.rcmp('le', a, pi_),
+                        ir.beq(ir.rcmp('eq', a, ir.ZERO), ir.rcmp('eq', t, ir.ONE)), ir.beq(ir.rcmp('eq', a, pi_), ir.rcmp('eq', t, ir.MONE))]
             c.side.append(('arccos', ir.band(ir.rcmp('le', ir.MONE, t), ir.rcmp('le', t, ir.ONE))))
             c.notes.append('arccos(t): fresh angle a with cos a = t, sin a = +sqrt(1-t^2) (a in [0,pi])')
             return S.SC(a)
